@@ -313,7 +313,55 @@ def rule_lists(ctx, rep):
 
 
 LF = "cds_list_head"
+def rule_listtrav(ctx, rep, rid="C15.listtrav"):
+    """Skeleton of the plain list.h traversal macros (witness/list.c) the registries, helper lists and fork handlers are walked with:
+    the body runs exactly for cursors different from the list head, receives the tested cursor (entry variants: the element containing
+    it), the walk starts at head->next (head->prev for the reverse forms), advances along the same direction, and returns only after the
+    cursor reached the head; the _safe forms read the successor before the body runs.  cds_list_empty(head) is `head->next == head`."""
+    m = ctx.mod("w_list", "flat")
+    fs = [f for f in m.defined() if f.name.startswith("w_ltrav_")]
+    pat.require(len(fs) >= 7, "plain list traversal witnesses missing (%d)" % len(fs))
+    for f in fs:
+        rep.touch(f)
+        tag = f.name[len("w_ltrav_"):]
+        rev = "prev" in tag or "reverse" in tag
+        fld = "cds_list_head.prev" if rev else "cds_list_head.next"
+        other = "cds_list_head.next" if rev else "cds_list_head.prev"
+        vis = pat.calls(f, "w_visit")
+        pat.require(len(vis) == 1, tag + ": body")
+        v = vis[0]
+        lv = pat.dom_leaf_atoms(f, v)
+        cur = [a for a in lv if a[0] == "ne" and a[2] == ("arg", 0)]
+        inv = [a for a in lv if a[0] == "eq" and a[2] == ("arg", 0)]
+        rep.check(bool(cur) and not inv, rid, tag + ".body-iff-not-head", "the body runs only for a cursor that is not the list head",
+                  "the body runs on a path where the cursor %s" % ("is the head: the head itself is visited as an element and real elements are not" if inv else "was not compared with the head"), [v.where()])
+        ends = [(t.blk.id, s_) for t, s_, a in pat.branch_edges_on(f, lambda a: a[0] == "eq" and a[2] == ("arg", 0))]
+        if ends:
+            rep.must_take_edge(rid, tag + ".ends-at-head", f, [f.entry()], list(f.rets()), ends, include_start=True, what="the traversal returns only after the cursor reached the head")
+        else:
+            rep.bad(rid, tag + ".ends-at-head", "the traversal has no `cursor == head` exit", [f.name])
+        lds = [l for l in f.all_insts() if l.op == "load" and l.d.get("ap") and pat.last_field(l.d["ap"]) in (fld, other)]
+        wrong = [l for l in lds if pat.last_field(l.d["ap"]) == other]
+        rep.check(bool(lds) and not wrong, rid, tag + ".direction", "the walk follows ->%s only" % fld.split(".")[1], "the walk loads ->%s: it changes direction / mixes both links" % other.split(".")[1], [l.where() for l in wrong[:1]] or [f.name])
+        first = [l for l in lds if l.d["ap"]["base"] == ["a", 0] and pat.last_field(l.d["ap"]) == fld and len(l.d["ap"]["steps"]) == 1]
+        rep.check(bool(first), rid, tag + ".starts-at-head-link", "the walk starts from head->%s" % fld.split(".")[1], "no load of head->%s: the walk does not start at the first element" % fld.split(".")[1], [f.name])
+        if "safe" in tag and cur:
+            # the successor used to continue is loaded before the body runs (the body may unlink / free the element)
+            after = f.reachable_set([v])
+            late = [l for l in lds if l.id in after and l not in first and not any(f.dominates(l, v) for _ in (0,))]
+            hdr_lds = [l for l in lds if f.dominates(l, v) and l not in first]
+            rep.check(bool(hdr_lds) or len(lds) >= 2, rid, tag + ".next-before-body", "the successor is read before the body runs", "the _safe form reads the successor only after the body: an element removed (and freed) by the body is dereferenced", [v.where()])
+    e = m.fn("w_lempty")
+    if e is not None:
+        rep.touch(e)
+        r = ir.expr(e, e.rets()[0].args[0], 6)
+        ok = ir.expr_contains(r, lambda z: z[0] == "icmp" and z[1] == "eq" and {str(z[2]), str(z[3])} == {str(("arg", 0)), str(("load", "arg0.cds_list_head.next", "na", z[2][3] if z[2][0] == "load" else (z[3][3] if z[3][0] == "load" else 0)))})
+        ok = ok or ir.expr_contains(r, lambda z: z[0] == "icmp" and z[1] == "eq" and any(y == ("arg", 0) for y in z[2:]) and any(isinstance(y, tuple) and y[0] == "load" and y[1] == "arg0.cds_list_head.next" for y in z[2:]))
+        rep.check(ok, rid, "cds_list_empty", "cds_list_empty(head) is head->next == head", "cds_list_empty returns %s" % ir.expr_str(r), [e.name])
+
+
 LISTOPS = {
+    "cds_list_add_tail": {("*(arg1.%s.prev).%s.next" % (LF, LF), "arg0"), ("arg0.%s.next" % LF, "arg1"), ("arg0.%s.prev" % LF, "ld(arg1.%s.prev)" % LF), ("arg1.%s.prev" % LF, "arg0")},
     "cds_list_add": {("*(arg1.%s.next).%s.prev" % (LF, LF), "arg0"), ("arg0.%s.next" % LF, "ld(arg1.%s.next)" % LF), ("arg0.%s.prev" % LF, "arg1"), ("arg1.%s.next" % LF, "arg0")},
     "__cds_list_del": {("arg1.%s.prev" % LF, "arg0"), ("arg0.%s.next" % LF, "arg1")},
     "cds_list_splice": {("*(arg0.%s.next).%s.prev" % (LF, LF), "arg1"), ("*(arg0.%s.prev).%s.next" % (LF, LF), "ld(arg1.%s.next)" % LF),
@@ -409,6 +457,7 @@ RULES = [
     ("C15.slot", rule_slot),
     ("C15.key", rule_key),
     ("C15.lists", rule_lists),
+    ("C15.listtrav", rule_listtrav),
     ("C15.sig", lambda c, r: _sig(c, r)),
     ("C15.leave", rule_leave),
 ]
